@@ -498,4 +498,70 @@ theorem jsonDumps_recordC13 (info : DepInfo) (head : Option Str) (ind : Option N
   simp only [pyJsonDumpsC13, jsonOfPValC13, jsonOfKvsC13, jsonOfPVal_sourceC13, jsonOfPVal_dictsC13, hh, jsonIndent_optNatC13,
     ok_bind, pure_eq_ok, depToJson]
 
+
+/-! ### the keys of a parsed object -/
+
+theorem mem_keys_dictSetC13 (k : Str) (v : PVal) (acc : List (Str × PVal)) (x : Str) :
+    x ∈ (Py.dictSet k v acc).map Prod.fst ↔ x = k ∨ x ∈ acc.map Prod.fst := by
+  induction acc with
+  | nil => simp [Py.dictSet]
+  | cons a t ih =>
+    obtain ⟨k', v'⟩ := a
+    by_cases h : k' = k
+    · subst h; simp [Py.dictSet]
+    · simp only [Py.dictSet, h, if_false, List.map_cons, List.mem_cons, ih]
+      constructor
+      · rintro (h1 | h1 | h1) <;> simp [h1]
+      · rintro (h1 | h1 | h1) <;> simp [h1]
+
+theorem mem_keys_embJMemsC13 : (ms : JMems) → (acc : List (Str × PVal)) → (x : Str) →
+    (x ∈ (embJMemsC13 ms acc).map Prod.fst ↔ x ∈ acc.map Prod.fst ∨ x ∈ ms.keys)
+  | .nil, acc, x => by simp [embJMemsC13, JMems.keys]
+  | .cons k v t, acc, x => by
+    have ih := mem_keys_embJMemsC13 t (Py.dictSet k (embJsonC13 v) acc) x
+    simp only [embJMemsC13, JMems.keys, List.mem_cons, ih, mem_keys_dictSetC13]
+    constructor
+    · rintro ((h1 | h1) | h1) <;> simp [h1]
+    · rintro (h1 | h1 | h1) <;> simp [h1]
+
+theorem dictGet?_isSome_memC13 (k : Str) (kvs : List (Str × PVal)) : (Py.dictGet? k kvs).isSome = true ↔ k ∈ kvs.map Prod.fst := by
+  induction kvs with
+  | nil => simp [Py.dictGet?]
+  | cons a t ih =>
+    obtain ⟨k', v'⟩ := a
+    by_cases h : k' = k
+    · simp [Py.dictGet?, h]
+    · simp only [Py.dictGet?, h, if_false, ih, List.map_cons, List.mem_cons]
+      constructor
+      · intro h1; exact .inr h1
+      · rintro (h1 | h1)
+        · exact absurd h1.symm h
+        · exact h1
+
+theorem get?_none_iffC13 : (ms : JMems) → (k : Str) → (ms.get? k = none ↔ k ∉ ms.keys)
+  | .nil, k => by simp [JMems.get?, JMems.keys]
+  | .cons k' v t, k => by
+    have ih := get?_none_iffC13 t k
+    simp only [JMems.get?, JMems.keys, List.mem_cons, not_or]
+    cases ht : t.get? k with
+    | some x =>
+      have : ¬ (k ∉ t.keys) := fun hh => by rw [ih.mpr hh] at ht; cases ht
+      simp [this]
+    | none =>
+      have hk := ih.mp ht
+      by_cases h : k' = k
+      · simp [h]
+      · simp only [h, if_false, hk, not_false_eq_true, and_true, true_iff]
+        exact fun hh => h hh.symm
+
+/-- the parameter names, both ways of writing them -/
+theorem okKey_depKeysC13 (k : Str) :
+    (depReqC13.contains k || depOptC13.any (fun p => p.1 == k)) = depKeys.contains k := by
+  simp only [depReqC13, depOptC13, depKeys, kName, kVersion, kSource, kScript, kStylesheet, kAllFiles, kMeta, kHead,
+    List.contains_cons, List.contains_nil, List.any_cons, List.any_nil, Bool.or_false]
+  simp only [Bool.beq_comm (a := k)]
+  cases (['n', 'a', 'm', 'e'] == k) <;> cases (['v', 'e', 'r', 's', 'i', 'o', 'n'] == k) <;> cases (['s', 'o', 'u', 'r', 'c', 'e'] == k)
+    <;> cases (['s', 'c', 'r', 'i', 'p', 't'] == k) <;> cases (['s', 't', 'y', 'l', 'e', 's', 'h', 'e', 'e', 't'] == k)
+    <;> cases (['a', 'l', 'l', '_', 'f', 'i', 'l', 'e', 's'] == k) <;> cases (['m', 'e', 't', 'a'] == k) <;> cases (['h', 'e', 'a', 'd'] == k) <;> rfl
+
 end HtmlVerif.SrcTie
